@@ -64,6 +64,8 @@ pub struct CXCursor(pub usize);
 pub struct Cursor { pub x: CXCursor }
 pub uninterp spec fn ffi_cursor_kind(x: CXCursor) -> CXCursorKind;
 pub uninterp spec fn ffi_enum_value(x: CXCursor) -> c_longlong;
+// the cursor lies inside a class template (libclang reports 0 for every enumerator there)
+pub uninterp spec fn ffi_in_template(x: CXCursor) -> bool;
 pub uninterp spec fn ffi_enum_value_unsigned(x: CXCursor) -> c_ulonglong;
 impl Cursor {
     #[verifier::external_body] pub fn kind(&self) -> (r: CXCursorKind) ensures r == ffi_cursor_kind(self.x) { unimplemented!() }
